@@ -7,4 +7,8 @@ package drc
 //vc:func Main
 //vc:  requires[C12] !lockHeld && !lockClosed
 //vc:  ensures[C12] @lockKeptUntilExit lockHeld ==> lockClosed
+// the lock is released by the deferred Close only: an explicit Close of the
+// lock file before the status, history and log files are written would let a
+// second run in ("#?": every call of Close in this function, there is none now)
+//vc:  assert[C12] at ".Close()"#? @lockReleasedOnlyAtExit arg0 != lockFileRef
 //vc:  assert[C11] at "device.ApproveOrCompare(" @compareFlagSelectsPath flagName(isCompare) == "compare" && arg0 == deref(isCompare)
